@@ -131,3 +131,16 @@ CHECKS["C14"] = {
     "note": ("Not decided: leaf-set equality between formats on concrete documents (duplicate keys collapse in dict-based formats; block targets are not rendered outside OCTAVE); "
              "what a converter does inside a branch beyond having it."),
 }
+
+CHECKS["C04"] = {
+    "technique": "static analysis: automata inclusion/emptiness between the emitter's bare-value regexes and a tokenizer model extracted from the source (regex->NFA over a symbolic alphabet, abstract evaluation of the identifier predicates), table inversion of escape/unescape, isinstance-order and exception-edge rules",
+    "text": ("On every run the quoting decision of needs_quotes is extracted as an ordered decision list, TOKEN_PATTERNS / aliases / operator set as tables, and the lexer's identifier "
+             "predicates are evaluated on one representative per alphabet class; automata then decide for every string the emitter would leave bare (IDENTIFIER, ANNOTATION, EXPRESSION, "
+             "VARIABLE patterns minus the exclusions tested before them): no token regex matches at a token start (start of value, or after an operator inside an expression), and the "
+             "intended reader consumes the string whole, each with a shortest witness. The escape chain copies are compared, and decoder(encoder(s)) == s is decided on the extracted "
+             "tables for all strings up to the cascade bound. bool-before-int order, total+finite number conversion (failure => LexerError), str(int|float) inside L(NUMBER) and not stolen "
+             "by an earlier token regex, and identity of _normalize_value_for_ast on scalars complete the rule set. Found and repaired on the pinned tree: sequential unescape chain, reserved "
+             "words as prefixes (true.x, A->null), unbounded int / inf literals; recorded: ANNOTATION_PATTERN vs scanner (A<>, NEVER<A,B>)."),
+    "note": ("The exhaustive sweep of concrete values through emit+parse is not run. The tokenizer model (pattern order, '+' special case, identifier scanner shape) is bound to the code by shape "
+             "checks that fail closed (exit 2). Not decided: NFC interaction, PATTERN/REGEX force-quoting, how the parser groups the tokens of multi-word values."),
+}
